@@ -11,9 +11,11 @@
    for At on a chunk that was never written, which needs Set(i) with i > size - no caller does that
    (Set is reached through Push = Set(size) and Pop = Set(size-1)). *)
 From Coq Require Import List Arith Bool Lia.
+From SV.Gen Require Import AstConsts.
 Import ListNotations.
 
-Definition CAP : nat := 16.          (* _DEFAULT_NODE_CAP *)
+(* _DEFAULT_NODE_CAP, regenerated from /repo/ast/parser.go on every run (Gen/AstConsts.v) *)
+Definition CAP : nat := Eval compute in DEFAULT_NODE_CAP.
 
 Record linked (A : Type) := mkLinked { head : list A; tail : list (list A); size : nat }.
 Arguments mkLinked {A}. Arguments head {A}. Arguments tail {A}. Arguments size {A}.
